@@ -1,0 +1,56 @@
+//go:build verif
+
+// Contracts for package appencryption, read by /verif/gocv (comment-only; no code).
+package appencryption
+
+// ---- AEAD (interface contract; fault-inclusive: any call may fail) ----
+
+//@ iface AEAD.Decrypt
+//@   names data, key
+//@   ensures err != nil ==> len(result) == 0
+//@   ensures result == nil || fresh(result)
+
+//@ iface AEAD.Encrypt
+//@   names data, key
+//@   ensures err != nil ==> len(result) == 0
+//@   ensures result == nil || fresh(result)
+
+// ---- C10: the decrypted data-row key is wiped on every exit after it exists ----
+
+//@ func decryptRow$1
+//@   facet C10
+//@   ensures [C10:rawdrk-wiped] forall i int :: 0 <= i && i < len(ret(Decrypt, 1, 0)) ==> ret(Decrypt, 1, 0)[i] == 0
+
+// ---- KMS (interface contract; fault-inclusive) ----
+
+//@ iface KeyManagementService.DecryptKey
+//@   names ctx, key
+//@   ensures err != nil ==> len(result) == 0
+//@   ensures result == nil || fresh(result)
+
+//@ iface KeyManagementService.EncryptKey
+//@   names ctx, key
+//@   ensures err != nil ==> len(result) == 0
+//@   ensures result == nil || fresh(result)
+
+// ---- C10: decrypted system / intermediate key bytes are wiped on every exit after they exist ----
+
+//@ func (*envelopeEncryption).systemKeyFromEKR
+//@   facet C10
+//@   ensures [C10:kms-plaintext-wiped] forall i int :: 0 <= i && i < len(ret(DecryptKey, 1, 0)) ==> ret(DecryptKey, 1, 0)[i] == 0
+
+//@ func (*envelopeEncryption).intermediateKeyFromEKR
+//@   facet C10
+//@   ensures [C10:ik-plaintext-wiped] forall i int :: 0 <= i && i < len(ret(WithBytesFunc, 1, 0)) ==> ret(WithBytesFunc, 1, 0)[i] == 0
+
+// ---- key caches (interface contract) ----
+
+//@ iface keyCacher.GetOrLoad
+//@   names id, loader
+//@   ensures (err == nil) == (result != nil)
+
+//@ iface keyCacher.GetOrLoadLatest
+//@   names id, loader
+//@   ensures (err == nil) == (result != nil)
+
+//@ iface keyCacher.Close
